@@ -2,7 +2,7 @@
    documented-format model (Format.enc / Format.dec) and the certified judgement layout_ok. *)
 From Coq Require Import ZArith List Bool Lia.
 Import ListNotations.
-From XO Require Import Slots Strides BufOps Types Format Check LayoutProofs RoundTrip.
+From XO Require Import Slots Strides BufOps Types Format Check LayoutProofs RoundTrip Update UpdateSize.
 Open Scope Z_scope.
 
 (* an image occupies exactly [off, off+len img): placing it changes no other byte *)
@@ -27,6 +27,12 @@ Theorem C03_reported_size_is_extent_general : forall t v img m off,
 Proof. exact dec_enc_size. Qed.
 Theorem C03_static_size : forall t v img s, enc t v = Some img -> csize t = Some s -> len img = s.
 Proof. exact enc_static_size. Qed.
+(* an assignment the model honours -- any type, any depth, any value that takes over the capacities
+   fixed at creation -- leaves an object whose documented image has exactly the same length: the
+   extent reserved at creation never changes, so a fitting assignment has nowhere to write but inside it *)
+Theorem C03_assignment_keeps_extent : forall t v p x v' img,
+  assign t v p x = Some v' -> enc t v = Some img -> exists img', enc t v' = Some img' /\ len img' = len img.
+Proof. exact assign_keeps_extent. Qed.
 Theorem C03_slot_rounding : forall n, n <= slot n < n + 8 /\ slot n mod 8 = 0.
 Proof. exact slot_spec. Qed.
 Print Assumptions C03_write_frame.
@@ -35,3 +41,4 @@ Print Assumptions C03_size_is_extent.
 Print Assumptions C03_slot_rounding.
 Print Assumptions C03_reported_size_is_extent_general.
 Print Assumptions C03_static_size.
+Print Assumptions C03_assignment_keeps_extent.
